@@ -420,90 +420,147 @@ def rule_lmnn_objective(repo, rep):
   R = 'R-FORM:lmnn-objective-weights'
   rep.rule(R, 'LMNN._loss_grad combines the pull (target-neighbour) term '
            'with weight reg and the push (active impostor) term with weight '
-           '1 - reg: G = reg dfG + (1 - reg) df mapped through L, objective '
-           '= (1 - reg) total_active + <L G, L>, and the returned gradient is '
-           '2 L G (derivative of tr(L G L^T) for the symmetric G)')
-  f0 = astutil.inline_helpers(repo, repo.get_func('lmnn.LMNN._loss_grad'))
-  rep.analysed(f0)
-  # roles from the returned triple (gradient built from G, objective,
-  # number of active constraints); df is the other matrix in G's definition
-  roles = {}
-  ret0 = [r for r in ast.walk(f0.node) if isinstance(r, ast.Return)]
-  if ret0 and isinstance(ret0[0].value, ast.Tuple) and \
-          len(ret0[0].value.elts) == 3:
-    e0, e1, e2 = ret0[0].value.elts
-    nm0 = [x.id for x in ast.walk(e0) if isinstance(x, ast.Name)]
-    if len(nm0) == 1:
-      roles[nm0[0]] = 'G'
-    if isinstance(e1, ast.Name):
-      roles[e1.id] = 'objective'
-    if isinstance(e2, ast.Name):
-      roles[e2.id] = 'total_active'
-  gname = [k for k, v in roles.items() if v == 'G']
-  if gname:
-    gd0 = [s_ for s_ in f0.node.body if isinstance(s_, ast.Assign) and
-           ast.unparse(s_.targets[0]) == gname[0]]
-    if gd0:
-      others = [x.id for x in ast.walk(gd0[0].value)
-                if isinstance(x, ast.Name) and x.id not in
-                ('dfG', 'reg', 'np', 'L', gname[0])]
-      if len(set(others)) == 1:
-        roles[others[0]] = 'df'
+           '1 - reg: with G = reg dfG + (1 - reg) df the returned gradient is '
+           '2 L G and the objective (1 - reg) total_active + <L G, L> - '
+           'decided in the algebra of matrix words with coefficients rational '
+           'in reg, for any use of temporaries')
+  from ..ncalg import NC, NCEval
+  from ..ratfunc import Rat as _Rat
+  f = astutil.inline_helpers(repo, repo.get_func('lmnn.LMNN._loss_grad'))
+  rep.analysed(getattr(f, 'orig', f))
+  key = 'lmnn.LMNN._loss_grad:'
 
-  f = astutil.role_view(f0, roles)
-  if f is None:
-    rep.unknown(R, 'lmnn.LMNN._loss_grad', site(f0), 'roles %s cannot be '
-                'given canonical names without conflating variables' % roles)
+  def canon_of(e):
+    d = repo.dotted(f.module, e)
+    return canon(d) if d else None
+  ret = [r for r in f.node.body if isinstance(r, ast.Return)]
+  if not ret or not isinstance(ret[-1].value, ast.Tuple) or \
+          len(ret[-1].value.elts) != 3:
+    rep.unknown(R, key + 'return', site(f), 'returned triple not found')
     return
-  stm = [s for s in f.node.body if isinstance(s, (ast.Assign, ast.AugAssign))]
-  reg = Rat.sym('reg')
-  one = Rat.const(1)
-  gdefs = [s for s in stm if isinstance(s, ast.Assign) and
-           ast.unparse(s.targets[0]) == 'G']
-  if len(gdefs) != 2:
-    rep.unknown(R, 'lmnn.LMNN._loss_grad:G', site(f), 'G is assigned %d '
-                'times' % len(gdefs))
+  g_e, o_e, a_e = ret[-1].value.elts
+  # the accumulators of the neighbour loop are atoms: the push matrix is the
+  # matrix accumulated in the loop, the count of active constraints the
+  # scalar accumulated there
+  loops = [n for n in f.node.body if isinstance(n, ast.For)]
+  acc_m, acc_s = set(), set()
+  for lp in loops:
+    for n in ast.walk(lp):
+      if isinstance(n, ast.AugAssign) and isinstance(n.target, ast.Name):
+        txt = ast.unparse(n.value)
+        if '_sum_outer_products' in txt or 'outer' in txt or '.T' in txt:
+          acc_m.add(n.target.id)
+        else:
+          acc_s.add(n.target.id)
+  if len(acc_m) != 1 or len(acc_s) != 1 or ast.unparse(a_e) not in acc_s:
+    rep.unknown(R, key + 'accumulators', site(f), 'push matrix / active '
+                'count accumulators not identified (%s / %s)'
+                % (sorted(acc_m), sorted(acc_s)))
     return
-  v = eval_expr(gdefs[0].value, {'reg': 'reg'}, {'dfG': 'pull', 'df': 'push'})
-  want = LinM.atom('pull').scale(reg) + LinM.atom('push').scale(one - reg)
-  if v is None:
-    rep.unknown(R, 'lmnn.LMNN._loss_grad:G', site(f, gdefs[0]),
-                'weighting not derivable')
+  push_n, act_n = next(iter(acc_m)), next(iter(acc_s))
+  reg, act = _Rat.sym('reg'), _Rat.sym('act')
+  one = _Rat.const(1)
+  Lm, pull, push = NC.atom('L'), NC.atom('pull'), NC.atom('push')
+  ev = NCEval({'L': Lm, 'dfG': pull, push_n: push},
+              {'reg': reg, act_n: act}, canon_of)
+
+  def scalar(e):
+    """-> [('rat', Rat) | ('inner', NC, NC)] or None"""
+    if isinstance(e, ast.Name) and e.id in sc_env:
+      return sc_env[e.id]
+    if isinstance(e, ast.BinOp) and isinstance(e.op, ast.Add):
+      a, b = scalar(e.left), scalar(e.right)
+      return None if a is None or b is None else a + b
+    v = ev.ev(e)
+    if isinstance(v, _Rat):
+      return [('rat', v)]
+    # <X, Y>: X.ravel().dot(Y.ravel()) / flatten / np.sum(X * Y)
+    if isinstance(e, ast.Call) and isinstance(e.func, ast.Attribute) and \
+            e.func.attr == 'dot' and len(e.args) == 1:
+      def flat(x):
+        if isinstance(x, ast.Call) and isinstance(x.func, ast.Attribute) and \
+                x.func.attr in ('ravel', 'flatten') and not x.args:
+          return ev.ev(x.func.value)
+        return None
+      a, b = flat(e.func.value), flat(e.args[0])
+      if isinstance(a, NC) and isinstance(b, NC):
+        return [('inner', a, b)]
+    if isinstance(e, ast.Call) and canon_of(e.func) == canon('numpy.sum') and \
+            len(e.args) == 1 and isinstance(e.args[0], ast.BinOp) and \
+            isinstance(e.args[0].op, ast.Mult):
+      a, b = ev.ev(e.args[0].left), ev.ev(e.args[0].right)
+      if isinstance(a, NC) and isinstance(b, NC) and a.kind == b.kind == 'mat':
+        return [('inner', a, b)]
+    return None
+  sc_env = {}
+  for s_ in f.node.body:
+    if isinstance(s_, ast.Assign) and len(s_.targets) == 1 and \
+            isinstance(s_.targets[0], ast.Name):
+      nm = s_.targets[0].id
+      if nm in (push_n, act_n):
+        continue
+      v = ev.ev(s_.value)
+      if isinstance(v, NC):
+        ev.mats[nm] = v
+        sc_env.pop(nm, None)
+      elif isinstance(v, _Rat):
+        ev.scalars[nm] = v
+        sc_env.pop(nm, None)
+      else:
+        ev.mats.pop(nm, None)
+        sv = scalar(s_.value)
+        if sv is not None:
+          sc_env[nm] = sv
+    elif isinstance(s_, ast.AugAssign) and isinstance(s_.target, ast.Name) \
+            and isinstance(s_.op, ast.Add) and s_.target.id in sc_env:
+      sv = scalar(s_.value)
+      if sv is None:
+        sc_env.pop(s_.target.id, None)
+      else:
+        sc_env[s_.target.id] = sc_env[s_.target.id] + sv
+    elif isinstance(s_, ast.AugAssign) and isinstance(s_.target, ast.Name) \
+            and isinstance(s_.op, ast.Add):
+      # objective = <rat>; objective += <inner>
+      base = ev.scalars.get(s_.target.id)
+      sv = scalar(s_.value)
+      if base is not None and sv is not None:
+        sc_env[s_.target.id] = [('rat', base)] + sv
+        ev.scalars.pop(s_.target.id, None)
+  G = pull.scale(reg).add(push.scale(one - reg))
+  LG = Lm.mul(G)
+  gv = ev.ev(g_e)
+  if not isinstance(gv, NC):
+    rep.unknown(R, key + 'gradient', site(f, ret[-1]), 'returned gradient '
+                '%s not derivable' % ast.unparse(g_e))
+  elif gv == LG.scale(_Rat.const(2)):
+    rep.derived(R, key + 'gradient', site(f, ret[-1]),
+                sample=dict(rule=R, gradient=repr(gv)))
   else:
-    rep.add(R, 'lmnn.LMNN._loss_grad:G', 'derived' if v == want else
-            'refuted', site(f, gdefs[0]), '' if v == want else 'G is %r, '
-            'documented %r' % (v, want),
-            sample=dict(rule=R, weighting=repr(v)))
-  ok2 = ast.unparse(gdefs[1].value) in ('L.dot(G)', 'np.dot(L, G)', 'L @ G')
-  rep.add(R, 'lmnn.LMNN._loss_grad:LG', 'derived' if ok2 else 'unknown',
-          site(f, gdefs[1]), '' if ok2 else 'G = %s not recognised as L G'
-          % ast.unparse(gdefs[1].value))
-  obj = [s for s in stm if ast.unparse(
-      s.targets[0] if isinstance(s, ast.Assign) else s.target) == 'objective']
-  if len(obj) == 2 and isinstance(obj[0], ast.Assign) and \
-          isinstance(obj[1], ast.AugAssign):
-    v0 = eval_expr(obj[0].value, {'reg': 'reg', 'total_active': 'act'}, {})
-    w0 = Rat.sym('act') * (one - reg)
-    a = ast.unparse(obj[1].value)
-    ok = isinstance(v0, Rat) and v0 == w0 and isinstance(obj[1].op, ast.Add) \
-        and a in ('G.flatten().dot(L.flatten())', 'np.sum(G * L)',
-                  'L.flatten().dot(G.flatten())', 'np.sum(L * G)',
-                  'G.ravel().dot(L.ravel())')
-    rep.add(R, 'lmnn.LMNN._loss_grad:objective', 'derived' if ok else
-            'refuted' if isinstance(v0, Rat) and v0 != w0 else 'unknown',
-            site(f, obj[0]), '' if ok else 'objective is %s; %s'
-            % (ast.unparse(obj[0].value), ast.unparse(obj[1])))
+    rep.refuted(R, key + 'gradient', site(f, ret[-1]), 'the returned '
+                'gradient is %r, documented 2 L (reg dfG + (1 - reg) df) = %r'
+                % (gv, LG.scale(_Rat.const(2))))
+  ov = scalar(o_e)
+  if ov is None:
+    rep.unknown(R, key + 'objective', site(f, ret[-1]), 'objective %s not '
+                'derivable' % ast.unparse(o_e))
+    return
+  rat = _Rat.const(0)
+  inners = []
+  for t_ in ov:
+    if t_[0] == 'rat':
+      rat = rat + t_[1]
+    else:
+      inners.append(t_)
+  ok_r = rat == act * (one - reg)
+  ok_i = len(inners) == 1 and (
+      (inners[0][1] == LG and inners[0][2] == Lm) or
+      (inners[0][2] == LG and inners[0][1] == Lm))
+  if ok_r and ok_i:
+    rep.derived(R, key + 'objective', site(f, ret[-1]))
   else:
-    rep.unknown(R, 'lmnn.LMNN._loss_grad:objective', site(f), 'objective '
-                'statements not recognised')
-  ret = [r for r in ast.walk(f.node) if isinstance(r, ast.Return)]
-  if ret and isinstance(ret[0].value, ast.Tuple) and ret[0].value.elts:
-    g0 = eval_expr(ret[0].value.elts[0], {}, {'G': 'LG'})
-    ok = g0 is not None and g0 == LinM.atom('LG').scale(Rat.const(2))
-    rep.add(R, 'lmnn.LMNN._loss_grad:gradient', 'derived' if ok else
-            ('refuted' if g0 is not None else 'unknown'), site(f, ret[0]),
-            '' if ok else 'returned gradient is %s, the derivative of '
-            '<L G, L> is 2 L G' % ast.unparse(ret[0].value.elts[0]))
+    rep.refuted(R, key + 'objective', site(f, ret[-1]), 'the objective is '
+                '%r + %s, documented (1 - reg) total_active + <L G, L>'
+                % (rat, [(repr(a), repr(b)) for (_, a, b) in inners]))
 
 
 def rule_lmnn_impostor_enumeration(repo, rep):
